@@ -300,6 +300,10 @@ FLOATS = ["1.5", "2.0", "-2.5", "1e3", "1E3", ".5", "5.", "1e-3", "0.1", "-0.0",
 EXPRS = ["4/2", "2**3", "1/3", "7//2", "(1+2)", "3*1.0", "2**0.5", "10%3", "-(-2)", "1/0", "2**-1", "sqrt(4)", "pi",
          "floor(2.5)", "ceil(2.5)", "abs(-3)", "1==1", "not 0", "(True)", "True+1", "1j", "'a'", "6/4", "1e3/1e3",
          "2**53+1", "float(2**53+1)", "(3)", "[3]", "-(3)", "1+1", "1 + 1", "int(2.5)", "1_0+1", "e", "2*(1+1)", "3/1"]
+# expressions with an integral value that use Python's builtins next to the math names: accepted spellings (the value is fixed by Python)
+ACCEPTED = ["abs(-3)", "int(2.5)", "round(7/2)", "max(2,3)*2", "min(4,9)", "len([1,2])", "sum([1,2])", "pow(2,5)", "divmod(7,2)[0]",
+            "int(floor(2.5))", "abs(int(-7/2))"]
+EXPRS = EXPRS + [x for x in ACCEPTED if x not in EXPRS]
 HUGE = ["2**1023", "2**1024", "10**400", "-10**400", "1e999", "-1e999", "2**1024-2**970", "2**1024-2**970+2**969",
         "10**400/1", "1e308*10"]
 SPECIAL = ["None", "none", "NONE", "nOnE", "Auto", "auto", "AUTO", "aUtO", "True", "true", "TRUE", "False", "false", "fAlSe",
@@ -570,6 +574,18 @@ class FromWords(Stream):
             b = self.run_extract(viadoc)
             if a != b:
                 return ["variants-differ", a, b]
+        if ty[0] in ("ints", "floats") and parse_safe(text):
+            # two parameters with the same type expression in one document (they share one converter object): an error about
+            # the second names the second
+            try:
+                doc = self.fp.parse("q0 = None\n.type = %s\n%s = %s\n.type = %s\n" % (ty_text(ty), PNAME, text, ty_text(ty)))
+                doc.objects[0].extract()
+                doc.objects[1].extract()
+            except RuntimeError as e:
+                if "q0" in str(e).split("=")[0] or (PNAME not in str(e) and "q0" in str(e)):
+                    return ["variants-differ", a, ["second-of-two-names-the-first", str(e)[:160]]]
+            except Exception:  # noqa
+                pass
         # the same definition after a pickle round trip / a deep copy (as freephil.interface and GUIs keep them): the declared
         # type, its bounds and allow_none travel with the copy
         k2 = json.dumps(ty)
@@ -625,6 +641,9 @@ class FromWords(Stream):
         if o[0] == "err":
             if o[1] == "RuntimeError" and o[3] != "1":
                 return "RuntimeError does not name the parameter"
+            if text in ACCEPTED and ty in (["int", None, None, True], ["float", None, None, True]):
+                return "the numeric expression %r (value %r) was refused for an unbounded %s: %r" % (
+                    text, builtins.eval(text, dict(math.__dict__), {}), ty[0], o)
             return None   # other exception classes are C16's subject
         v = o[1]
         k = ty[0]
